@@ -50,11 +50,13 @@ pub fn run(a: &Args) {
         runs.push((2, 0));                                                   // hard error: unreadable application memory
         runs.push((3, 0)); runs.push((3, 1)); runs.push((3, 2)); runs.push((3, 3));  // signals at each point
         runs.push((4, 0));                                                   // StopProcess fail point
+        for _ in 0..2 { runs.push((7, rng.range(1, total_calls.max(1) as u64) as usize)); }   // the destination PANICS at call k: the request unwinds
         for (mode, k) in runs {
             let mut w = MinidumpWriter::new(target.pid, target.pid);
             if zombie_leader { w.stop_timeout(std::time::Duration::from_millis(20)); }
             let mut dest = RecDest::new(vec![], 0, false);
             if mode == 1 { dest.fail_at = Some(k); }
+            if mode == 7 { dest.panic_at = Some(k); }
             if mode == 2 { w.set_app_memory(vec![AppMemory { ptr: 0x10, length: 64 }]); }
             let mut client = FailSpotName::testing_client();
             if mode == 4 { client.set_enabled(FailSpotName::StopProcess, true); }
@@ -79,7 +81,7 @@ pub fn run(a: &Args) {
             for t in &wt { let idx = target.tids.iter().position(|x| *x == t.tid); let kind = match idx.map(|i| scen.threads[i].kind) { Some(Kind::NullSp) => 3, _ => if t.state == 'Z' { 1 } else { 0 } }; line.u(kind).u(0); }
             line.u(outcome).u(3);
             let mut r = Line::bare(); r.z(traced).b(stopped > 0).u(0);
-            out.count(&format!("run.{}", ["clean", "destination_failure", "unreadable_app_memory", "signals", "stop_failpoint"][mode as usize]));
+            out.count(&format!("run.{}", ["clean", "destination_failure", "unreadable_app_memory", "signals", "stop_failpoint", "", "", "destination_panics"][mode as usize]));
             if traced != 0 || stopped != 0 {
                 out.notes.push(format!("not released after mode {mode} k {k}: {detail}"));
                 // this process is the tracer of whatever was left attached: release it so that the next runs on this target start clean
@@ -170,5 +172,5 @@ pub fn run(a: &Args) {
         }
     }
     out.assumptions.push("kernel semantics of PTRACE_ATTACH/DETACH, group-stop and signal queueing are the assumed kernel model; observed through /proc/<pid>/task/<tid>/status (State, TracerPid), counters in a page shared with the target".into());
-    out.finish(&a.out, "live targets (blocked, spinning, null-SP threads; every 4th shape with an exited main thread so that the stop poll times out after SIGSTOP was sent) x runs: clean dump, destination failing at call k (every k on the first shape and in the thorough tier), unreadable application memory (hard error after suspension), realtime signals sent before the dump and at each hook point, StopProcess fail point; after each run: no thread traced or stopped, spin counters advance, per-thread signal counters equal the numbers sent; second target per even shape: a thread in the vfork wait with SIGUSR1, SIGUSR2 and a realtime signal queued, released once the writer attached (with and without the StopProcess fail point): each signal reaches its handler exactly once");
+    out.finish(&a.out, "live targets (blocked, spinning, null-SP threads; every 4th shape with an exited main thread so that the stop poll times out after SIGSTOP was sent) x runs: clean dump, destination failing at call k (every k on the first shape and in the thorough tier), destination PANICKING at a call (the request unwinds), unreadable application memory (hard error after suspension), realtime signals sent before the dump and at each hook point, StopProcess fail point; after each run: no thread traced or stopped, spin counters advance, per-thread signal counters equal the numbers sent; second target per even shape: a thread in the vfork wait with SIGUSR1, SIGUSR2 and a realtime signal queued, released once the writer attached (with and without the StopProcess fail point): each signal reaches its handler exactly once");
 }
